@@ -12,7 +12,7 @@ from tcsim import core  # noqa: E402
 
 ASSUME_STORE = [
     'task computations are deterministic functions of declared parameters and inputs (generated run bodies are)',
-    'crash = process death (os._exit); kernel-received bytes survive, no power loss; torn write = prefix of the file opened by the last mutating fs operation',
+    'crash = process death (os._exit) before or right after a file-system operation, or an interrupt exception raised at it that unwinds the stack before the process ends; kernel-received bytes survive, no power loss; torn write = prefix of the file opened by the last mutating fs operation; disk error = OSError at an operation, or a short write then OSError inside a write-opened file',
     'file system is the real tmpfs under /dev/shm (or /var/tmp); taskchain, filelock, orjson, yaml, numpy, pandas run real; tqdm bars, datetime in taskchain.task stubbed',
     'generator stays inside the working domain of unclaimed properties (DESIGN.md A2/A3): unique task names, no namespace that prefixes a task name, safe string alphabet',
 ]
@@ -150,7 +150,7 @@ def c05_prepare(engine, tier, seed, a, cov):
         scns += lst
     engine.explicit = scns
     cov['enumeration'] = {'combos': len(combos), 'mutating_fs_operations_per_request': points, 'scenarios': len(scns),
-                          'exhaustive_for': 'every crash index of the judged request of every listed combo, 7 tear lengths after every write-open, ENOSPC/EIO at every operation, every run-fault kind on every task involved',
+                          'exhaustive_for': 'every crash index of the judged request of every listed combo in three modes (die before the operation, die right after it, interrupt exception unwinding the stack), 7 tear lengths after every write-open, ENOSPC/EIO at every operation, a short write then ENOSPC at 5 byte limits inside every write-open, every run-fault kind on every task involved; forced combos also followed by delete_data / a second force',
                           'kinds': sorted({c['kind'] for c in combos})}
     cov['exhaustive'] = False
     return [('explicit-enum', len(scns))]
